@@ -65,7 +65,7 @@ func cmdReplay(args []string) {
 		work, _ := os.MkdirTemp("", "vq-replay-")
 		replayWork = work
 		defer os.RemoveAll(work)
-		dischargeAll(jobs, filepath.Join(work, "q"), 10, 60, false, 16)
+		dischargeAll(jobs, filepath.Join(work, "q"), 10, 60, false, solverWorkers())
 		if len(jobs) == 0 && len(fr.Unbound) == 0 && !strings.Contains(rp.Obligation, "#vacuity") && !strings.Contains(rp.Obligation, "#contract-unbound") {
 			fmt.Println("obligation is no longer generated for this function")
 			still = true
